@@ -165,3 +165,11 @@ def check(ctx):
     # is a function of the packet and its arguments only (C09 d), no stack kept between parses
     from .c09 import check_exec
     check_exec(ctx)
+    # Round 7: a described field left automatic is recomputed by every pack (its before-pack hook
+    # writes the hidden field and nothing else): a hook that also marks the field as forced freezes
+    # the first computed value, so the bytes of a later pack no longer parse to the packet (C17-a)
+    from .c17 import check_auto
+    try:
+        check_auto(ctx)
+    except Undecided as e:
+        ctx.undecided('R13-typestate', ('bisturi/descriptor.py', 'Auto'), 'Auto', str(e), 0)
